@@ -149,6 +149,39 @@ def removeUnreachable (g : Graph) (r : Nat) : GRes Graph :=
   | .err e => .err e
   | .panic => .panic
 
+/-! ### the public per-vertex / per-edge queries, as the code answers them from its four maps -/
+
+/-- `vertex(v)` -/
+def qVertex (g : Graph) (v : Nat) : GRes Unit := if v ∈ g.verts then .ok () else .err (.vnf v)
+/-- `successor_indices(v)`: vertex test, then `self.successors[&v]` (index: panics without the key) -/
+def qSuccIdx (g : Graph) (v : Nat) : GRes (List Nat) :=
+  if v ∉ g.verts then .err (.vnf v) else match g.succ.get v with | some l => .ok l | none => .panic
+def qPredIdx (g : Graph) (v : Nat) : GRes (List Nat) :=
+  if v ∉ g.verts then .err (.vnf v) else match g.pred.get v with | some l => .ok l | none => .panic
+/-- `successors(v)`: additionally `self.vertices.get(index).unwrap()` for every successor -/
+def qSuccessors (g : Graph) (v : Nat) : GRes (List Nat) :=
+  if v ∉ g.verts then .err (.vnf v)
+  else match g.succ.get v with
+    | some l => if l.all (fun s => decide (s ∈ g.verts)) then .ok l else .panic
+    | none => .panic
+def qPredecessors (g : Graph) (v : Nat) : GRes (List Nat) :=
+  if v ∉ g.verts then .err (.vnf v)
+  else match g.pred.get v with
+    | some l => if l.all (fun s => decide (s ∈ g.verts)) then .ok l else .panic
+    | none => .panic
+/-- `edges_out(v)`: decided by the *successors* map alone (`.get(&v)…ok_or(GraphVertexNotFound)`),
+    each edge fetched by `self.edges[&(v, succ)]` (index: panics when missing) -/
+def qEdgesOut (g : Graph) (v : Nat) : GRes (List Nat) :=
+  match g.succ.get v with
+  | none => .err (.vnf v)
+  | some l => if l.all (fun s => decide ((v, s) ∈ g.edges)) then .ok l else .panic
+def qEdgesIn (g : Graph) (v : Nat) : GRes (List Nat) :=
+  match g.pred.get v with
+  | none => .err (.vnf v)
+  | some l => if l.all (fun p => decide ((p, v) ∈ g.edges)) then .ok l else .panic
+/-- `edge(h, t)` -/
+def qEdge (g : Graph) (h t : Nat) : GRes Unit := if (h, t) ∈ g.edges then .ok () else .err (.enf h t)
+
 /-- the successor/predecessor maps describe exactly the edge set, and have exactly the keys `W` -/
 structure Core (W : List Nat) (g : Graph) : Prop where
   enodup : g.edges.Nodup
